@@ -53,6 +53,9 @@ func Base64ASN1File(info Info, data []byte) (Info, error) {
 
 func JavaKeystore(info Info, data []byte) (Info, error) {
 	info.Description = "Java Keystore (JKS)"
+	if !jksLengthsPlausible(data) {
+		return info, fmt.Errorf("failed to parse keystore data")
+	}
 	k, err := keystore.InsecureParse(data)
 	if err != nil {
 		return info, fmt.Errorf("failed to parse keystore data")
@@ -65,6 +68,9 @@ func JavaKeystore(info Info, data []byte) (Info, error) {
 
 func JCEKeystore(info Info, data []byte) (Info, error) {
 	info.Description = "Java Keystore (JCEKS)"
+	if !jksLengthsPlausible(data) {
+		return info, fmt.Errorf("failed to parse keystore data")
+	}
 	k, err := keystore.InsecureParse(data)
 	if err != nil {
 		return info, fmt.Errorf("failed to parse keystore data")
